@@ -94,8 +94,6 @@ def check_write(res, rng, fmt, dest_state, overwrite, fail, use_regions_cls, fmt
             outcome = type(e).__name__
         after = state(path)
         must_refuse = before[0] == 'present' and not overwrite
-        if fmt == 'fits' and dest_state == 'dangling' and not overwrite:
-            return desc      # astropy tests os.path.exists: a dangling link is "absent" for the FITS writer (documented limit)
         if must_refuse and fail == 'none':
             if outcome != 'OSError':
                 res.violation(f'existing destination without overwrite: outcome {outcome}, expected OSError', case=desc)
